@@ -241,19 +241,16 @@ class OpMachine:
             self.store.candles.add_candle(np.array([float(self.t - 60_000), p, p, p, p, 1.0]), self.ex, op['sym'], '1m',
                                           with_execution=False, with_generation=False)
             r.order.execute()
-            if r.order in self.store.orders.to_execute:
-                self.store.orders.to_execute.remove(r.order)
+            # (a pending MARKET order stays in jesse's queue: the next flush delivers execute() once more - a duplicate)
         elif kind == 'cancel':
             rest = [r for r in self.resting(op['sym'])]
             if not rest:
                 return
             r = rest[op['idx'] % len(rest)]
             r.order.cancel()
-            if r.order in self.store.orders.to_execute:
-                self.store.orders.to_execute.remove(r.order)
+            # (a cancelled pending MARKET order stays queued: the flush will try to execute a cancelled order)
         elif kind == 'cancel_all':
             self.strats[op['sym']].broker.cancel_all_orders()
-            self.store.orders.to_execute = [o for o in self.store.orders.to_execute if o.is_active]
         elif kind == 'dup':
             fin = self.finals()
             if not fin:
@@ -280,8 +277,6 @@ class OpMachine:
             o = self.submit(op['sym'], op['side'], op['typ'], op['qty'], op['k'])
             if o is not None:
                 o.cancel()
-                if o in self.store.orders.to_execute:
-                    self.store.orders.to_execute.remove(o)
                 if before is not None:
                     after = float(self.exch().available_margin)
                     c.count('c03_roundtrips')
